@@ -725,3 +725,13 @@ func extIndexByte(fr *frame, args []value) value {
 	}
 	return -1
 }
+
+// Package-level logging functions of logrus write to a standard logger whose initialiser the executor does not run;
+// logging is environment (empty bodies), except the ones that end the process or panic, which stay unmodelled.
+func init() {
+	for _, n := range []string{"Trace", "Debug", "Info", "Print", "Warn", "Warning", "Error"} {
+		for _, suf := range []string{"", "f", "ln"} {
+			externals["github.com/sirupsen/logrus."+n+suf] = func(fr *frame, args []value) value { return nil }
+		}
+	}
+}
